@@ -435,15 +435,56 @@ fn witnesses() -> Vec<Case> {
     out
 }
 
+/// E6: operators have no memory.  Operand objects are bound to variables and used again: for every
+/// ordered pair of kinds (a, b), with c a second construction of a's expression and richer containers
+/// around them, every comparison and `+` is evaluated, then other operators are applied to the same
+/// objects, then the first ones again - the answers must not depend on what was evaluated before.
+fn e6() -> Vec<Case> {
+    let mut pool = operand_pool();
+    pool.push(("vec2", vec![], Expr::VecLit(vec![num(1.0), Expr::VecLit(vec![num(2.0), num(3.0)])])));
+    pool.push(("vec3", vec![], Expr::VecLit(vec![num(1.0), Expr::VecLit(vec![num(2.0), num(4.0)])])));
+    pool.push(("tuple_of_vec", vec![], Expr::TupleLit(vec![Expr::VecLit(vec![num(1.0)]), num(2.0)])));
+    pool.push(("map_of_vec", vec![], Expr::MapLit(vec![(s("k"), Expr::VecLit(vec![num(1.0)]))])));
+    pool.push(("map_of_vec2", vec![], Expr::MapLit(vec![(s("k"), Expr::VecLit(vec![num(2.0)]))])));
+    let ops = [BinOp::Eq, BinOp::Ne, BinOp::Lt, BinOp::Add];
+    let mut out = Vec::new();
+    for (_, pa, a) in &pool {
+        for (_, pb, b) in &pool {
+            let mut prog = pa.clone();
+            if !pb.is_empty() && pa.is_empty() {
+                prog.extend(pb.clone());
+            }
+            prog.push(var_stmt("a", a.clone()));
+            prog.push(var_stmt("b", b.clone()));
+            prog.push(var_stmt("c", a.clone()));
+            let probe = |e: Expr| st(StmtKind::Try(vec![print_stmt(e)], Some(("err".into(), vec![print_stmt(call(var("type"), vec![var("err")]))])), None));
+            let round = |prog: &mut Vec<Stmt>| {
+                for op in ops {
+                    prog.push(probe(bin(op, var("a"), var("b"))));
+                    prog.push(probe(bin(op, var("a"), var("c"))));
+                    prog.push(probe(bin(op, var("b"), var("a"))));
+                }
+                prog.push(probe(bin(BinOp::Eq, Expr::VecLit(vec![var("a")]), Expr::VecLit(vec![var("c")]))));
+                prog.push(probe(bin(BinOp::Eq, Expr::TupleLit(vec![var("a"), var("b")]), Expr::TupleLit(vec![var("c"), var("b")]))));
+                prog.push(probe(bin(BinOp::Eq, Expr::VecLit(vec![var("a")]), Expr::VecLit(vec![var("b")]))));
+            };
+            round(&mut prog);
+            round(&mut prog);
+            out.push(Case::new("E6_operators_have_no_memory", prog));
+        }
+    }
+    out
+}
+
 pub fn cases_for_c04(thorough: bool) -> Vec<Case> {
-    witnesses().into_iter().chain(e4()).chain(e5(if thorough { 5 } else { 4 })).collect()
+    witnesses().into_iter().chain(e4()).chain(e5(if thorough { 5 } else { 4 })).chain(e6()).collect()
 }
 
 pub fn run(ctx: &Ctx) -> Report {
     let thorough = ctx.thorough();
     let mut report = Report::new();
     let size = if thorough { 5 } else { 4 };
-    let cases = witnesses().into_iter().chain(e1()).chain(e2(thorough)).chain(e3(thorough)).chain(e4()).chain(e5(size));
+    let cases = witnesses().into_iter().chain(e1()).chain(e2(thorough)).chain(e3(thorough)).chain(e4()).chain(e5(size)).chain(e6());
     let hooks = Hooks {
         attribute: &|_c, _m, _o, _mm| None,
         nontrivial: &|_c, m| m.out.len() >= 1 || matches!(m.outcome, Outcome::Uncaught(_)),
